@@ -2,7 +2,7 @@
 import re
 
 from core import glob_match
-from engine import wire_int_findings, panic_sites
+from engine import wire_int_findings, panic_sites, fn_origins
 from props.common import Ctx, fn_short  # noqa: F401
 
 EXPLANATION = (
@@ -61,8 +61,13 @@ OUT_OF_SCOPE = {
 AUDITED = []
 
 
-def A(fn_glob, what_glob, reason, max_sites):
+AUDITED_RECV = {}   # index in AUDITED -> origin the receiver (argument 0) of the audited call must have
+
+
+def A(fn_glob, what_glob, reason, max_sites, recv=None):
     AUDITED.append((fn_glob, what_glob, reason, max_sites))
+    if recv is not None:
+        AUDITED_RECV[len(AUDITED) - 1] = recv
 
 
 A('mithril_stm::*::MerkleBatchPath::from_bytes_legacy', '*copy_from_slice',
@@ -70,11 +75,14 @@ A('mithril_stm::*::MerkleBatchPath::from_bytes_legacy', '*copy_from_slice',
 A('mithril_stm::*::AggregateVerificationKeyForConcatenation::from_bytes_legacy', '*copy_from_slice',
   'source is get(len-8 ..) with len-8 from checked_sub: exactly 8 bytes for the [u8; 8] buffer', 1)
 A('mithril_stm::*::BlsProofOfPossession::from_bytes', '*Result::expect_err',
-  'blst_error_to_stm_error(e) in the Err(e) arm of a blst call: blst never returns Err(BLST_SUCCESS) (third-party contract)', 1)
+  'blst_error_to_stm_error(e) on the error of a blst call: blst never returns Err(BLST_SUCCESS) (third-party contract)', 1,
+  recv='call:*blst_error_to_stm_error')
 A('mithril_stm::*::BlsSignature::from_bytes', '*Result::expect_err',
-  'blst_error_to_stm_error(e) in the Err(e) arm of a blst call: blst never returns Err(BLST_SUCCESS) (third-party contract)', 1)
+  'blst_error_to_stm_error(e) on the error of a blst call: blst never returns Err(BLST_SUCCESS) (third-party contract)', 1,
+  recv='call:*blst_error_to_stm_error')
 A('mithril_stm::*::BlsVerificationKey::from_bytes', '*Result::expect_err',
-  'blst_error_to_stm_error(e) in the Err(e) arm of a blst call: blst never returns Err(BLST_SUCCESS) (third-party contract)', 1)
+  'blst_error_to_stm_error(e) on the error of a blst call: blst never returns Err(BLST_SUCCESS) (third-party contract)', 1,
+  recv='call:*blst_error_to_stm_error')
 
 
 def const_width_copy(f, bi):
@@ -442,8 +450,15 @@ def run(ctx):
                 discharged += 1
                 continue
             hit = None
+            # an audit entry names the decoder; the site may sit in a closure written inside it (`.map_err(|e| ..expect_err(..))`)
+            owner = re.sub(r'(::\{closure#\d+\})+$', '', f.name)
             for i, (fg, wg, reason, mx) in enumerate(AUDITED):
-                if glob_match(fg, f.name) and glob_match(wg, what):
+                if glob_match(fg, owner) and glob_match(wg, what):
+                    if i in AUDITED_RECV:
+                        c = f.body.blocks[bi].term[1]
+                        og = fn_origins(f, c.args[0], True) if c.args else set()
+                        if not any(o.startswith('call:') and glob_match(AUDITED_RECV[i][5:], o[5:]) for o in og):
+                            continue
                     hit = i
                     break
             if hit is None:
